@@ -508,6 +508,19 @@ def discharge(ctx, body, p, ev, kind):
                 b0 = strip_refs(b)
                 if is_call(b0, "::len") and content(call_args(b0)[0]) == S:
                     return True
+                # the number of leading bytes that satisfy a predicate only ASCII bytes can satisfy: S.bytes().take_while(u8::is_ascii_digit).count()
+                if is_call(b0, "Iterator::count", "::count") and call_args(b0):
+                    tw = strip_refs(call_args(b0)[0])
+                    if is_call(tw, "::take_while") and len(call_args(tw)) == 2 and is_call(strip_refs(call_args(tw)[0]), "str>::bytes") \
+                            and content(call_args(strip_refs(call_args(tw)[0]))[0]) == S:
+                        f_ = strip_refs(call_args(tw)[1])
+                        if isinstance(f_, tuple) and f_ and f_[0] == "const" and isinstance(f_[2], tuple) and f_[2][0] == "fn" and f_[2][1].rsplit("::", 1)[-1].startswith("is_ascii_") \
+                                and "u8" in f_[2][1]:
+                            return True
+                        if isinstance(f_, tuple) and f_[:2] == ("agg", "closure"):
+                            tbl = char_table(ctx.paths(f_[2]) or [], is_param=lambda t_: strip_refs(t_) == ("param", 2), domain=BYTE_DOMAIN)
+                            if tbl and all(v is not None for v in tbl.values()) and all(not tbl[chr(i)] for i in range(128, 256)):
+                                return True
                 # the position of a match yielded by S.match_indices(<ASCII characters>) or S.char_indices(), or the position right after a one-byte match
                 k_ = 0
                 m0 = b0
